@@ -1,7 +1,7 @@
 (* C12 — the server applies exactly the filter and options the user specified.  Statements only.
    encoding/base64 and strconv are standard-library oracles: what is assumed of them is stated
    as hypotheses (round trip and output alphabet). *)
-From DT Require Import Lib.Bytes Lib.Split Gen.Consts Model.Proto Proofs.C12_Codec.
+From DT Require Import Lib.Bytes Lib.Split Gen.Consts Model.Proto Proofs.C12_Codec Proofs.C12_Session.
 
 (* For every pattern (any bytes: spaces, ':', ';', ',', '%', '=', non-ASCII, leading/trailing
    blanks), flag, file path without a blank, before/after/max in Z, quiet/plain/serverless, and
@@ -38,6 +38,27 @@ Theorem C12_regex : forall (regex_compiles : bytes -> bool) (f : flag) (p : byte
 Proof. exact (fun rc => regex_deser_ser rc (fun _ => true)). Qed.
 Print Assumptions C12_regex.
 
+(* Whole sessions.  A client sends one command per file, all with the same options; the mapreduce
+   client sends an option-less "map <query>" first; the server's handleOptions runs once per
+   session.  For every such sequence (any number of read requests and map commands in any order,
+   at least one read request): every command is decoded to what the client encoded - each read
+   request with ITS context values, file and regex, each query verbatim - nothing is left in the
+   buffer, and the session runs in the output modes the client asked for (an option-less command
+   in front does not use up the once-only setting). *)
+Theorem C12_session :
+  forall (b64enc : bytes -> bytes) (b64dec : bytes -> option bytes) (itoa : Z -> bytes) (atoi : bytes -> option Z)
+         (regex_compiles query_parses : bytes -> bool),
+    (forall s, b64dec (b64enc s) = Some s) ->
+    (forall s, ~ In sp (b64enc s) /\ ~ In semicolon (b64enc s)) ->
+    (forall z, atoi (itoa z) = Some z) ->
+    (forall z, ~ In sp (itoa z) /\ ~ In colon (itoa z) /\ ~ In eqsign (itoa z) /\ ~ In percent (itoa z)) ->
+  forall (m : bool * bool * bool) (items : list item),
+    Forall (wf_item regex_compiles) items -> Forall (item_modes m) items -> existsb is_read items = true ->
+    let res := srv_write b64dec atoi regex_compiles query_parses sopts0 [] (session_wire b64enc itoa items) in
+    snd (fst res) = [] /\ map snd (snd res) = map (expected query_parses) items /\ modes (fst (fst res)) = m.
+Proof. exact session. Qed.
+Print Assumptions C12_session.
+
 (* non-vacuity: a hostile pattern through table oracles *)
 Example C12_example :
   let pat := B" a b;c:%d=, " in
@@ -47,3 +68,17 @@ Example C12_example :
   = [ORead {| q_tail := false; q_before := 0; q_after := 0; q_max := (-3); q_file := B"/tmp/x";
               q_flags := [FInvert]; q_pattern := pat |}].
 Proof. vm_compute. reflexivity. Qed.
+
+(* a mapreduce session: option-less map command, then two reads carrying the modes *)
+Example C12_session_example :
+  let c1 := B"map select count(x) from S" in
+  let c2 := B"cat:quiet=true:plain=true /tmp/a regex:noop " in
+  let c3 := B"cat:quiet=true:plain=true /tmp/b regex:noop " in
+  let hd := B"protocol " ++ c_protocol_compat ++ B" base64 " in
+  let res := run_session [(B"Q1", Some c1); (B"Q2", Some c2); (B"Q3", Some c3)] [(B"true", None)] [([], true)] [(B"select count(x) from S", true)]
+               (hd ++ B"Q1;" ++ hd ++ B"Q2;" ++ hd ++ B"Q3;") in
+  map snd res = [OMap (B"select count(x) from S");
+                 ORead {| q_tail := false; q_before := 0; q_after := 0; q_max := 0; q_file := B"/tmp/a"; q_flags := [FNoop]; q_pattern := [] |};
+                 ORead {| q_tail := false; q_before := 0; q_after := 0; q_max := 0; q_file := B"/tmp/b"; q_flags := [FNoop]; q_pattern := [] |}]
+  /\ map (fun x => modes (fst (fst x))) res = [(false, false, false); (true, true, false); (true, true, false)].
+Proof. vm_compute. split; reflexivity. Qed.
